@@ -680,13 +680,43 @@ def anchor_class(report):
     return code
 
 
+def _strip_comments(text):
+    out, i, n = [], 0, len(text)
+    while i < n:
+        if text.startswith("//", i):
+            j = text.find("\n", i)
+            i = n if j < 0 else j
+        elif text.startswith("/*", i):
+            j = text.find("*/", i + 2)
+            i = n if j < 0 else j + 2
+            out.append(" ")
+        else:
+            out.append(text[i])
+            i += 1
+    return "".join(out)
+
+
+def _defined_twice(p):
+    """A template or function name defined more than once in the files of the project (in the same file or across an
+    include): which copy the merged program keeps depends on a hash order, so reports and SSA dumps taken from two
+    runs of the harness may speak about different copies. (A T2008 report exists only for some of these cases.)"""
+    names = collections.Counter()
+    files = getattr(p, "files", None) or (p.get("files") if isinstance(p, dict) else None) or {}
+    for name, text in files.items():
+        if isinstance(text, bytes):
+            text = text.decode("utf-8", "replace")
+        for m in re.finditer(r"\b(?:template|function)\b(?:\s+(?:custom|parallel))*\s+([A-Za-z_$][A-Za-z0-9_$]*)", _strip_comments(text)):
+            names[m.group(1)] += 1
+    return any(c > 1 for c in names.values())
+
+
 def judge_statement_anchors(p, out, prov, stats):
     """-> failures (clause `statement-anchor`)"""
     fails = []
     defs = prov.get("defs") or []
     if not defs:
         return fails
-    if any(r["id"] == "T2008" for r in out.get("reports") or []):
+    if any(r["id"] == "T2008" for r in out.get("reports") or []) or _defined_twice(p):
         # a definition declared twice: which copy survives the merge depends on a hash order (known finding
         # C17-duplicate-definition-order), and the reports and the SSA dump come from two runs of the harness
         stats["anchor_projects_skipped_duplicate_definition"] += 1
